@@ -33,6 +33,10 @@ extern int vf_exc;          /* 0 = no exception in flight; VF_EXC_* otherwise (e
 #define VF_EXC_ABORT 1
 #define VF_ABORT() (vf_exc = VF_EXC_ABORT)
 #define VF_CMP3(a, b) ((a) < (b) ? -1 : ((a) > (b) ? 1 : 0)) /* builtin operator<=> ; std::strong_ordering -> int */
+/* assigns target for an lvalue of POINTER type in a contract that may be REPLACED: CBMC 6.11 dfcc havocs a plain pointer
+   lvalue target with the same value at every application of the contract (docs/HOWTO.md, dfcc traps); the byte-level
+   form below is havocked afresh each time and has the same frame */
+#define VF_PT(lv) __CPROVER_object_upto(&(lv), sizeof(lv))
 #ifdef VF_CANARY
 #define VF_CANARY_POINT __CPROVER_assert(0, "vf canary: must fail (the call returns under its precondition)")
 #else
